@@ -32,7 +32,7 @@ func main() {
 		corpus(w)
 		na, nc, no := 2000, 1200, 1200
 		if a.Tier == "thorough" {
-			na, nc, no = 16000, 10000, 14000
+			na, nc, no = 40000, 20000, 30000
 		}
 		for i := 0; i < na; i++ {
 			d := i % 5
